@@ -64,7 +64,10 @@ def c12(chk):
                 "several window sizes; (2) a complete transition cover of a bounded model replayed into the real "
                 "accrualFailureDetector with the window read back after every arrival and the level queried at "
                 "0, 1, a random point, the largest gap and far beyond the threshold; (3) seeded long sequences "
-                "(several times the window) for W in {1,2,3,5,50}; all judged by TLC (TraceF.tla)")
+                "(several times the window) for W in {1,2,3,5,50}; all judged by TLC (TraceF.tla). The detector "
+                "tracks three peers: removals, level queries for a peer without a window and calls naming other "
+                "peers are interleaved, and every peer's view is validated as a trace of its own (a call naming "
+                "another peer must leave this peer's window unchanged)")
     chk.assumptions = ["time in whole milliseconds; the level is compared to the exact fraction within 1e-4"]
     for w, b, g, n in ([(2, 2, 2, 7), (3, 4, 3, 7)] if quick else [(1, 2, 3, 8), (2, 2, 3, 9), (3, 4, 3, 9), (4, 2, 2, 11)]):
         G.model_check(chk, "C12-W%d" % w, fd_consts(w, b, g, n), FD_INV, [], view=None, module="FailureDetector")
@@ -87,7 +90,7 @@ def c12(chk):
         for k, n in st["by_op"].items():
             ops[k] = ops.get(k, 0) + n
     chk.notes["executed_calls_by_action"] = ops
-    for need in ("Report", "Query"):
+    for need in ("Report", "Query", "QueryNew", "Remove", "Other"):
         if ops.get(need, 0) == 0:
             raise vp.Machinery("vacuous run: never executed " + need)
 
